@@ -7,6 +7,7 @@ import (
 	"verif/props/c02"
 	"verif/props/c03"
 	"verif/props/c04"
+	"verif/props/c05"
 	"verif/props/c06"
 	"verif/props/c09"
 	"verif/props/c10"
@@ -22,6 +23,7 @@ func Registry() map[string]func() *mon.Spec {
 		"C02": c02.Spec,
 		"C03": c03.Spec,
 		"C04": c04.Spec,
+		"C05": c05.Spec,
 		"C06": c06.Spec,
 		"C09": c09.Spec,
 		"C10": c10.Spec,
